@@ -163,6 +163,8 @@ def run(ctx, rep):
     K.share(ctx, rep, "c16", lambda o: o.rule == "R16.4" and "shut down and untracked" in o.key, "R17.2", floor=1)
     K.share(ctx, rep, "c16", lambda o: o.rule == "R16.2" and ("_drop_connection" in o.key or "no longer polled" in o.key), "R17.2", floor=2)
     K.share(ctx, rep, "c11", lambda o: o.rule == "R11.3" and ("serve_all" in o.key or "serve_threaded" in o.key), "R17.2", floor=2)
+    # a server tears its clients down one after the other: closing one whose peer has vanished must not raise out of the loop
+    K.share(ctx, rep, "c11", lambda o: o.rule == "R11.1" and "already gone" in o.key, "R17.1", floor=1)
     K.share(ctx, rep, "c05", lambda o: o.rule == "R05.3" and ".close:" in o.key, "R17.2", floor=3)
     fdc = ctx.func(SRV + ".ThreadPoolServer._drop_connection")
     gdc = ctx.cfg(fdc, raises=quiet_logging_raises)
